@@ -323,3 +323,51 @@ class Dec:
         if t == 2:
             return zid, "precalc", self.precalc()
         raise Bad("zone type")
+
+
+# ------------------------------------------------------------------------------------------ byte roles of a zone field
+
+def zone_field_roles(payload: bytes, pool):
+    """{payload offset: role} for every byte of a well-formed TIME_ZONE field payload.
+    roles: id, type, fixed-offset, fixed-name, count, transition, name, offset, tail-flag, and for the tail map
+    tail-offset, tail-name, tail-flags (mode/day-of-week/advance/add-day byte), tail-month, tail-dom, tail-tod."""
+    d = Dec(payload, pool)
+    roles = {}
+
+    def mark(role, fn):
+        a = d.p
+        v = fn()
+        for i in range(a, d.p):
+            roles[i] = role
+        return v
+
+    def yo():
+        mark("tail-flags", d.byte)
+        mark("tail-month", d.count)
+        mark("tail-dom", d.signed)
+        mark("tail-tod", d.millis)
+
+    mark("id", d.string)
+    t = mark("type", d.byte)
+    if t == 1:
+        mark("fixed-offset", d.millis)
+        if d.more():
+            mark("fixed-name", d.string)
+    elif t == 2:
+        n = mark("count", d.count)
+        start = mark("transition", lambda: d.transition(None))
+        for _ in range(n):
+            mark("name", d.string)
+            mark("offset", d.millis)
+            mark("offset", d.millis)
+            start = mark("transition", lambda start=start: d.transition(start))
+        if mark("tail-flag", d.byte) == 1:
+            mark("tail-offset", d.millis)
+            mark("tail-name", d.string)
+            yo()
+            mark("tail-name", d.string)
+            yo()
+            mark("tail-offset", d.millis)
+    else:
+        raise Bad("zone type")
+    return roles
